@@ -13,6 +13,8 @@ func init() { register("C19", checkC19) }
 
 func checkC19(c *Ctx, r *Report, tier string) {
 	r.Rule("C19.R1", "heap.Interface contract of both queue types: Less is a strict comparison of the priorities of elements i and j whose direction matches the constructor (NewMin… ⇒ <, NewMax… ⇒ >); Swap exchanges exactly i and j; Push appends its argument; Pop returns the last element and shrinks by one; Len is len; the wrapper's Push/Pop go through container/heap on the wrapped queue and Peek reads index 0", 13)
+	r.Rule("C19.R3", "the ordering direction of a queue is fixed by its constructor: the wrapped heap is stored only into freshly allocated queues", 1)
+	queueKindFixedAtConstruction(c, r, "C19.R3")
 	r.Rule("C19.R2", "Reverse hands the new queue a freshly allocated copy of the items, never the source's backing array", 2)
 	sp := c.SSAPkg("utils")
 	if sp == nil {
@@ -383,4 +385,29 @@ func popRemovesLast(f *ssa.Function) (bool, string) {
 		}
 	}
 	return true, "returns old[len-1], stores old[0:len-1]"
+}
+
+// queueKindFixedAtConstruction: the wrapped heap (and with it the ordering direction) is chosen once, by a constructor.
+func queueKindFixedAtConstruction(c *Ctx, r *Report, rule string) {
+	fld := c.Field("utils", "priorityQueue", "queue")
+	if fld == nil {
+		r.Unk(rule, "utils.priorityQueue", "queue", "-", "field not found")
+		return
+	}
+	n, bad := 0, ""
+	for _, f := range prodFuncs(c, "utils") {
+		for _, st := range fieldStoresIn(f, fld) {
+			n++
+			fa := st.Addr.(*ssa.FieldAddr)
+			if al, ok := strip(fa.X).(*ssa.Alloc); ok && al.Heap {
+				continue
+			}
+			bad = fnName(f) + " at " + c.InstrPos(st)
+		}
+	}
+	if bad != "" {
+		r.Bad(rule, "utils.priorityQueue", "kind-fixed-at-construction", "-", "the wrapped heap of an existing queue is replaced ("+bad+"): the ordering direction is a property of the wrapped type, so a replacement can silently turn a max queue into a min queue (or drop items) in the middle of a push/pop history")
+	} else {
+		r.OK(rule, "utils.priorityQueue", "kind-fixed-at-construction", "-", fmt.Sprintf("%d store(s) to the wrapped heap, all into a freshly allocated queue (constructors)", n))
+	}
 }
